@@ -262,10 +262,7 @@ func (s *saver) saveBus(bus *Bus) *acmelibv1.Bus {
 		pBus.NodeInterfaces = append(pBus.NodeInterfaces, s.saveNodeInterface(nodeInt))
 	}
 
-	if bus.isDefCANIDBuilder {
-		return pBus
-	}
-
+	// the default builder is saved too: it can be edited in place through Bus.CANIDBuilder
 	entID := bus.canIDBuilder.entityID
 	addOrderedRef(s.refCANIDBuilders, &s.canIDBuilderOrder, entID, bus.canIDBuilder)
 	pBus.CanidBuilderEntityId = string(entID)
